@@ -90,7 +90,8 @@ def gen_arma2psd(rng, n, nimpl, nflt):
         kind = kinds[i % len(kinds)]; i += 1
         NFFT = int(rng.choice([1, 2, 2, 4, 4, 4, 4]))
         cplx = bool(rng.integers(0, 2))
-        la = int(rng.integers(0, NFFT)); lb = int(rng.integers(0, NFFT))
+        la = int(rng.integers(0, NFFT)) if rng.integers(0, 3) == 0 else NFFT - 1       # mostly the longest admissible vectors
+        lb = int(rng.integers(0, NFFT)) if rng.integers(0, 3) == 0 else NFFT - 1
         A = lowbit(rng, la, cplx) if kind not in ('MA', 'none') else None
         B = lowbit(rng, lb, cplx) if kind not in ('AR', 'none') else None
         if kind in ('toolong', 'toolong_eq'):
@@ -240,7 +241,10 @@ def gen_minvar(rng, n, nimpl, nflt):
             else:
                 psd, A, k = out
                 psd = np.asarray(psd, dtype=float)
-                a2, rho, k2 = arburg(x if cplx else np.real(x), m - 1)
+                try:
+                    a2, rho, k2 = arburg(x if cplx else np.real(x), m - 1)
+                except Exception:      # (a changed implementation: no condition estimate, no case)
+                    continue
                 r0 = np.sum(np.abs(x) ** 2) / N
                 if np.all(np.isfinite(psd)) and rho > 0 and r0 / rho <= 1e4 and np.all(psd != 0):
                     den = (1.0 if s is None else s) / psd
@@ -262,7 +266,10 @@ def gen_minvar(rng, n, nimpl, nflt):
             out, ex = L.call_impl(minvar, x, m, s, nfft)
             if ex is not None:
                 continue
-            a2, rho, k2 = arburg(x, m - 1)
+            try:
+                a2, rho, k2 = arburg(x, m - 1)
+            except Exception:
+                continue
         psd, A, k = out
         psd = np.asarray(psd, dtype=float)
         r0 = np.sum(np.abs(x) ** 2) / N
@@ -307,13 +314,17 @@ def gen_CORRELOGRAMPSD(rng, n, nimpl, nflt):
     i = 0
     while len(c.exact) < n:
         kind = kinds[i % len(kinds)]; i += 1
-        N = int(rng.integers(1, 6)); cx = bool(rng.integers(0, 2)); cy = bool(rng.integers(0, 2))
+        N = int(rng.integers(1, 6)); cx = bool(rng.integers(0, 3)); cy = bool(rng.integers(0, 2))
+        if kind in ('auto', 'cross', 'xcorr'):
+            N = int(rng.integers(3, 6))
         x = lowbit(rng, N, cx, den=4, span=8)
         y = lowbit(rng, N, cy, den=4, span=8) if kind in ('cross', 'cross_len') or (kind == 'xcorr' and rng.integers(0, 2)) else None
         if kind == 'cross_len' and y is not None:
             y = lowbit(rng, int(rng.integers(1, 6)), cy, den=4, span=8)          # CORRELATION zero-pads the shorter record
         lag = int(rng.integers(0, N))
         nfft = [1, 2, 4, 4, 4][int(rng.integers(0, 5))]
+        if kind in ('auto', 'cross', 'xcorr'):
+            lag = int(rng.integers(1, min(N, 4))); nfft = 4 if rng.integers(0, 4) else 2        # the layouts that fit (and the overlapping ones for lag >= 2)
         nm = ['unbiased', 'biased', 'coeff', None, 'omit'][int(rng.integers(0, 5))]
         meth = 'CORRELATION'
         if kind == 'lagN':
